@@ -122,10 +122,16 @@ def run_stream(name, drv, model, make_gen, make_oracle, seed, episodes, nops, he
             else:
                 nreal += 1
 
-            def fails_same(cand, kind=fail.kind):
+            def msg_class(m):
+                import re
+                m = re.sub(r"[0-9a-f]{6,}", "H", m)
+                return re.sub(r"\d+", "N", m)[:48]
+
+            def fails_same(cand, kind=fail.kind, want=msg_class(fail.detail)):
                 out = replay(drv, model if kind == "diff" else None, cand, make_oracle, env=env)
                 if kind == "oracle":
-                    return bool(out.oracle)
+                    # the SAME complaint of the oracle, not any complaint (a shortened sequence may fail for a reason of its own)
+                    return any(msg_class(o[2]) == want for o in out.oracle)
                 if kind == "crash":
                     return bool(out.crashes)
                 return bool(out.diffs) and not out.oracle and not out.crashes
